@@ -243,6 +243,23 @@ func HandlerAlive(dump string) bool {
 	return strings.Contains(dump, "(*PushPullHandler).process")
 }
 
+// ClientSyncStuck reports a dump in which an SDK client's Sync() waits for the client's sync
+// semaphore while no goroutine of the process is inside a sync that could release it.
+func ClientSyncStuck(dump string) bool {
+	waiting, holder := false, false
+	for _, g := range strings.Split(dump, "\n\n") {
+		if strings.Contains(g, "managers.(*DatatypeManager).SyncAll") && strings.Contains(g, "semaphore.(*Weighted).Acquire") {
+			waiting = true
+			continue
+		}
+		if strings.Contains(g, "managers.(*DatatypeManager).syncPushPullPacks") || strings.Contains(g, "managers.(*SyncManager).Sync") ||
+			strings.Contains(g, "managers.(*DatatypeManager).syncIfNeedPull") || strings.Contains(g, "managers.(*DatatypeManager).DeliverTransaction") {
+			holder = true
+		}
+	}
+	return waiting && !holder
+}
+
 // CallOutcome of a service call under the watchdog.
 type CallOutcome struct {
 	Err      error
@@ -287,6 +304,8 @@ func Guard(watchdog time.Duration, f func(ctx context.Context) error) CallOutcom
 		if strings.Contains(d, "ProcessPushPull") && strings.Contains(d, "reflect.Select") && !HandlerAlive(d) {
 			stuck++
 		} else if strings.Contains(d, "PatchDocument") && strings.Contains(d, "chan receive") && !HandlerAlive(d) {
+			stuck++
+		} else if ClientSyncStuck(d) {
 			stuck++
 		}
 		select {
